@@ -99,7 +99,10 @@ func (ref *FileEnt) Walk(names ...string) []*FileEnt {
 
 	for i = 0; i < len(names); i++ {
 		var found bool
-		ref, found = ref.children[names[i]]
+		dir := ref
+		dir.Lock() // children is modified under this lock by create and remove
+		ref, found = dir.children[names[i]]
+		dir.Unlock()
 		if !found {
 			break
 		}
